@@ -1,3 +1,144 @@
-import GambitV.Spec.Signature
+import GambitV.Lemmas.Find
+
+/-!
+# C01 — `calc_signature` computes exactly the set of k-mers that follow the prefix on either strand
+
+The model (`Model/Find.lean`) follows the code: repeated `bytes.find` restarted one past each hit,
+end bound `-k` on the forward search, start bound `k` on the reverse search, the slices of
+`KmerMatch.kmer_indices`, the `ValueError`-skipping wrappers, and both accumulators.  The
+specification (`Spec/Signature.lean`) does not mention searching at all.
+
+All theorems quantify over arbitrary byte strings; the only hypotheses are those of `WF`
+(`1 ≤ k ≤ 32`, non-empty upper-case `ACGT` prefix), which is what `KmerSpec.__init__` enforces.
+Helper lemmas live in `Lemmas/Find.lean`.
+-/
 namespace GambitV.C01
+open GambitV
+
+/-- What `KmerSpec.__init__` guarantees about `(k, prefix)`. -/
+structure WF (k : Nat) (pre : List UInt8) : Prop where
+  kpos : 1 ≤ k
+  k32  : k ≤ 32
+  pre_ne : pre ≠ []
+  pre_acgt : ∀ b ∈ pre, b ∈ [65, 67, 71, 84]
+
+/-- 1. The find/record/restart-one-past-the-hit loop returns every matching position of the
+searched range, in increasing order (so overlapping occurrences are all found). -/
+theorem findLoop_eq_filter (hay pat : List UInt8) (stop fuel start : Nat) (hpat : pat ≠ [])
+    (hf : stop + 1 - start ≤ fuel) :
+    findLoop hay pat stop fuel start =
+      (List.range' start (stop + 1 - pat.length - start)).filter (matchAt hay pat) :=
+  GambitV.findLoop_eq_filter hay pat stop fuel start hpat hf
+
+/-- 2. Forward search: exactly the positions `i` with a match and `i + |pre| + k ≤ |hay|`. -/
+theorem fwdMatches_complete (k : Nat) (pre hay : List UInt8) (_h : pre ≠ []) :
+    fwdMatches k pre hay =
+      (List.range (hay.length - k + 1 - pre.length)).filter (matchAt hay pre) :=
+  fwdMatches_eq k pre hay
+
+/-- 3. Reverse search: exactly the positions `k ≤ i`, `i + |pre| ≤ |hay|` matching `revcomp pre`. -/
+theorem revMatches_complete (k : Nat) (pre hay : List UInt8) (_h : pre ≠ []) :
+    revMatches k pre hay =
+      (List.range' k (hay.length + 1 - pre.length - k)).filter (matchAt hay (revcomp pre)) :=
+  revMatches_eq k pre hay
+
+/-- 4. Upper-casing the haystack only when it contains one of `acgt` is equivalent to
+case-insensitive matching, for an upper-case `ACGT` pattern. -/
+theorem haystack_matchAt (s pat : List UInt8) (i : Nat) (hpre : ∀ b ∈ pat, b ∈ [65, 67, 71, 84]) :
+    matchAt (haystack s) pat i = matchAt (upper s) pat i :=
+  haystack_matchAt' s pat i hpre
+
+/-- 5. The indices contributed by one sequence are exactly the k-mers following the prefix on the
+sequence or on its reverse complement. -/
+theorem mem_seqIndices_iff {k : Nat} {pre : List UInt8} (wf : WF k pre) (s : List UInt8) (x : Nat) :
+    x ∈ seqIndices k pre s ↔ StrandMem k pre s x ∨ StrandMem k pre (revcomp s) x := by
+  unfold seqIndices
+  simp only []
+  rw [List.mem_append, mem_fwd_iff k pre s x wf.k32 wf.pre_ne wf.pre_acgt,
+    mem_rev_iff k pre s x wf.k32 wf.pre_acgt]
+
+theorem mem_allIndices_iff {k : Nat} {pre : List UInt8} (wf : WF k pre) (seqs : List (List UInt8))
+    (x : Nat) : x ∈ allIndices k pre seqs ↔ SpecMem k pre seqs x := by
+  unfold allIndices SpecMem
+  simp only [List.mem_flatMap, mem_seqIndices_iff wf]
+
+/-- 6. Membership in the computed signature is the specification. -/
+theorem mem_signature_iff {k : Nat} {pre : List UInt8} (wf : WF k pre) (seqs : List (List UInt8))
+    (x : Nat) : x ∈ signature k pre seqs ↔ SpecMem k pre seqs x := by
+  unfold signature
+  rw [mem_setAccumulate, mem_allIndices_iff wf]
+
+/-- 7. The signature is strictly increasing (sorted, no duplicates). -/
+theorem signature_sorted (k : Nat) (pre : List UInt8) (seqs : List (List UInt8)) :
+    (signature k pre seqs).Pairwise (· < ·) :=
+  setAccumulate_sorted _
+
+theorem specMem_lt {k : Nat} {pre : List UInt8} {seqs : List (List UInt8)} {x : Nat}
+    (h : SpecMem k pre seqs x) : x < 4 ^ k := by
+  obtain ⟨s, _, h | h⟩ := h
+  · exact strandMem_lt _ _ _ _ h
+  · exact strandMem_lt _ _ _ _ h
+
+/-- 8. Every element is a valid k-mer index. -/
+theorem signature_lt {k : Nat} {pre : List UInt8} (wf : WF k pre) (seqs : List (List UInt8))
+    (x : Nat) : x ∈ signature k pre seqs → x < 4 ^ k :=
+  fun h => specMem_lt ((mem_signature_iff wf seqs x).1 h)
+
+theorem mem_specList_iff {k : Nat} {pre : List UInt8} (wf : WF k pre) (seqs : List (List UInt8))
+    (x : Nat) : x ∈ specList k pre seqs ↔ SpecMem k pre seqs x := by
+  have h1 : 1 ≤ pre.length + k := by have := wf.kpos; omega
+  unfold specList SpecMem
+  rw [mem_setAccumulate]
+  simp only [List.mem_flatMap, List.mem_append, mem_strandOcc _ _ _ _ h1]
+
+/-- 9. The model of the implementation equals the brute-force oracle, as lists. -/
+theorem signature_eq_specList {k : Nat} {pre : List UInt8} (wf : WF k pre)
+    (seqs : List (List UInt8)) : signature k pre seqs = specList k pre seqs := by
+  have hs : (specList k pre seqs).Pairwise (· < ·) := setAccumulate_sorted _
+  exact sorted_ext _ _ (signature_sorted k pre seqs) hs
+    (fun x => by rw [mem_signature_iff wf, mem_specList_iff wf])
+
+/-- 10. The bitmap accumulator and the set accumulator give the same array. -/
+theorem accumulators_agree {k : Nat} {pre : List UInt8} (wf : WF k pre)
+    (seqs : List (List UInt8)) : signatureArrayAcc k pre seqs = signature k pre seqs := by
+  unfold signatureArrayAcc signature
+  apply arrayAccumulate_eq
+  intro x hx
+  exact specMem_lt ((mem_allIndices_iff wf seqs x).1 hx)
+
+/-- 11. Every element fits the dtype chosen by `index_dtype(k)`. -/
+theorem signature_dtype {k : Nat} {pre : List UInt8} (wf : WF k pre) (seqs : List (List UInt8)) :
+    ∃ w, indexDtypeBytes k = some w ∧ ∀ x ∈ signature k pre seqs, x < 2 ^ (8 * w) := by
+  cases hw : indexDtypeBytes k with
+  | none => have := (C07.indexDtype_none_iff k).1 hw; have := wf.k32; omega
+  | some w =>
+    refine ⟨w, rfl, ?_⟩
+    intro x hx
+    exact Nat.lt_of_lt_of_le (signature_lt wf seqs x hx) (C07.indexDtype_minimal k w hw).1
+
+/-! ### 12. Non-vacuity -/
+
+example : WF 3 [65, 84] := ⟨by decide, by decide, by decide, by decide⟩
+
+-- ATCCCATGGG, prefix AT, k = 3.  Forward: AT|CCC → 21, AT|GGG → 42.  The sequence is its own
+-- reverse complement, so the reverse strand contributes the same two k-mers.
+example : signature 3 [65, 84] [[65, 84, 67, 67, 67, 65, 84, 71, 71, 71]] = [21, 42] := by decide
+
+-- atcnATGTATA, prefix AT, k = 2: lower-case match `at|cn` is found but its k-mer contains `n`
+-- (skipped), AT|GT → 11, the last AT is too close to the end (dropped); reverse strand
+-- TATACATngat: AT|AC → 1, AT|ng skipped, `at` at the very end dropped.
+example : signature 2 [65, 84] [[97, 116, 99, 110, 65, 84, 71, 84, 65, 84, 65]] = [1, 11] := by decide
+
+-- Self-overlapping prefix "AT" in ATATATAT, k = 2: matches at 0, 2, 4 (6 is too close to the end);
+-- every k-mer is AT → 3; the sequence is its own reverse complement.
+example : signature 2 [65, 84] [[65, 84, 65, 84, 65, 84, 65, 84]] = [3] := by decide
+example : fwdMatches 2 [65, 84] [65, 84, 65, 84, 65, 84, 65, 84] = [0, 2, 4] := by decide
+example : revMatches 2 [65, 84] [65, 84, 65, 84, 65, 84, 65, 84] = [2, 4, 6] := by decide
+
+-- Self-overlapping prefix "AA" in AAAACG, k = 2: overlapping matches at 0, 1, 2 are all found.
+example : fwdMatches 2 [65, 65] [65, 65, 65, 65, 67, 71] = [0, 1, 2] := by decide
+
+example : signatureArrayAcc 3 [65, 84] [[65, 84, 67, 67, 67, 65, 84, 71, 71, 71]] = [21, 42] := by decide
+example : specList 3 [65, 84] [[65, 84, 67, 67, 67, 65, 84, 71, 71, 71]] = [21, 42] := by decide
+
 end GambitV.C01
